@@ -725,6 +725,10 @@ func setBGPAdvertisementsToPools(ipPools []metallbv1beta1.IPAddressPool, bgpAdvs
 		}
 		for _, poolName := range append(bgpAdv.Spec.IPAddressPools, ipPoolsSelected...) {
 			if pool, ok := ipPoolMap[poolName]; ok {
+				// A pool can be both named and matched by a selector.
+				if slices.Contains(pool.BGPAdvertisements, adv) {
+					continue
+				}
 				err := validateBGPAdvPerPool(adv, pool)
 				if err != nil {
 					return err
